@@ -8,7 +8,13 @@ Open Scope Z_scope.
 (* ------------------------------------------------------------------ the case type *)
 Inductive case :=
   | CSeq (l : obs_level) (c : gcfg) (univ : list Z) (steps : list sstep)
-  | CConc (c : gcfg) (deep : nat) (univ : list Z) (items : list item).
+  | CConc (c : gcfg) (deep : nat) (univ : list Z) (items : list item)
+  (* "hashers are functions": pairs (HashedInt of a key computed by one goroutine alone, an answer for the same key
+     while other goroutines were hashing); the model takes the hash of a key as a datum of the key, so routing is a
+     function of the key exactly when every such pair agrees *)
+  | CHash (obs : list (Z * Z)).
+
+Definition hash_stable (obs : list (Z * Z)) : bool := forallb (fun p => fst p =? snd p) obs.
 
 Definition case_holds (c : case) : bool :=
   match c with
@@ -16,6 +22,7 @@ Definition case_holds (c : case) : bool :=
       seq_holds l univ (match l with ObsStore => [] | ObsAll => map (fun _ => None) univ end)
                 (map (fun k => lookup k (g_init cfg)) univ) [] steps
   | CConc cfg deep univ items => conc_holds cfg univ items
+  | CHash obs => hash_stable obs
   end.
 
 (* the observation is exactly what the model produces: for a sequential history the model's observation of every call,
@@ -24,6 +31,7 @@ Definition case_accept (c : case) : bool :=
   match c with
   | CSeq l cfg univ steps => seq_accept l cfg univ (ginit cfg) steps
   | CConc cfg deep univ items => conc_match cfg deep univ [] (minit cfg) items
+  | CHash obs => hash_stable obs
   end.
 
 (* ------------------------------------------------------------------ whatever is accepted satisfies the monitor *)
@@ -81,8 +89,8 @@ Qed.
 
 Theorem case_sound : forall c, case_accept c = true -> case_holds c = true.
 Proof.
-  intros [l cfg univ steps|cfg deep univ items]; cbn [case_accept case_holds]; intros Ha;
-    [|eapply conc_sound; exact Ha].
+  intros [l cfg univ steps|cfg deep univ items|obs]; cbn [case_accept case_holds]; intros Ha;
+    [|eapply conc_sound; exact Ha|exact Ha].
   assert (Hnil : ws_ok cfg []) by (intros k w H; discriminate).
   pose proof (seq_sound l cfg univ steps (ginit cfg) [] (ginit_ok cfg) Hnil Ha) as H.
   replace (snap_cache l cfg (ginit cfg) univ) with (match l with ObsStore => [] | ObsAll => map (fun _ : Z => @None (option Z)) univ end) in H
